@@ -272,6 +272,18 @@ class World:
                     require_preferred_engine=req == "T",
                 )
                 return self.report(n, "same" if res is lhs else "new", res)
+            case ["joinpl", n, tn, fn, px, ["opts", pref, bt, tr, req]]:
+                # the fixed relation as the LEFT operand: Join(pred).partial(fixed, is_lhs=True).apply(target, ...)
+                from lsst.daf.relation import Join
+                target, fixed = self.pool[tn], self.pool[fn]
+                res = Join(self.pred(px)).partial(fixed, is_lhs=True).apply(
+                    target,
+                    preferred_engine=None if pref == "-" else self.engines[pref],
+                    backtrack=bt == "T",
+                    transfer=tr == "T",
+                    require_preferred_engine=req == "T",
+                )
+                return self.report(n, "same" if res is target else "new", res)
             case ["joinmax", n, ln, rn, cols, px, ["opts", pref, bt, tr, req]]:
                 # automatic common columns capped by max_columns
                 from lsst.daf.relation import Join
@@ -315,6 +327,13 @@ class World:
             case ["transfer", n, tn, en]:
                 t = self.pool[tn]
                 res = t.transferred_to(self.engines[en])
+                return self.report(n, "same" if res is t else "new", res)
+            case ["transferp", n, tn, en]:
+                # Engine.transfer with an explicit payload (an iteration engine): the rows of the target
+                t = self.pool[tn]
+                e = self.engines[en]
+                payload = iteration.RowSequence(self.rows_of(t))
+                res = e.transfer(t, payload)
                 return self.report(n, "same" if res is t else "new", res)
             case ["snap"]:
                 return "ok changed=[" + ",".join(self.snapshot_changes()) + "]"
